@@ -27,6 +27,7 @@ func init() {
 		Race:         true,
 		FreshProcess: true,
 		Rule: "built with -race. Each round takes one module (parsed from the corpus or constructed through the API, with unnamed globals, locals and unassigned metadata IDs), in never-printed or already-printed state, and lets N in {2,4,16} goroutines (GOMAXPROCS 2 or 16) start on a barrier and call String/WriteTo/Func.LLString/Block.LLString/Global.LLString/Type/Ident/String on it, while the Yield hooks inside AssignIDs/AssignGlobalIDs/AssignMetadataIDs/WriteTo/Func.LLString inject PRNG Gosched/sleeps; every returned text is compared with a separately built twin printed sequentially (in the fresh scenario only after the first concurrent round, which starts 16 whole-module printers at once: each case runs in its own process, so the first printing activity of the process is concurrent and process-level state initialised by a first print is not warmed up beforehand), and every race-detector report is a violation (de-duplicated by the pair of top llir/llvm frames). " +
+			"Scenario literalmod: the module itself is a struct literal (&ir.Module{}) holding unnamed globals, an unnamed function and ID-less metadata made by the constructors; never printed, whole-module printers only. " +
 			"Scenario literal: a never-printed module whose function, globals, alias and constant expression are built as struct literals (empty Typ caches), whole-module printers only. " +
 			"The constructed module also holds extended-precision constants (x86_fp80, fp128, ppc_fp128, half), a metadata list out of ID order, declarations without linkage and named struct-literal instructions used as typed operands. " +
 			"non-trivial = a round in which at least two printers were inside a print call at the same time (witnessed by the harness' activity counter); distinct by (module, state, N, round)",
@@ -75,7 +76,39 @@ func genC13(ctx *fw.Ctx) []fw.Case {
 			c13Rounds(r, "literal", fmt.Sprintf("literal/%d", i), "c13BuildLiteral()", c13BuildLiteral, rounds)
 		}})
 	}
+	// literalmod: the module itself is a struct literal (&ir.Module{}, no NewModule), its
+	// contents come from the constructors; never printed, whole-module printers only
+	for i := 0; i < ctx.Pick(2, 8); i++ {
+		i := i
+		cases = append(cases, fw.Case{ID: fmt.Sprintf("literalmod/constructed/%d", i), Run: func(r *fw.Rec) {
+			c13Rounds(r, "literalmod", fmt.Sprintf("literalmod/%d", i), "c13BuildLiteralModule()", c13BuildLiteralModule, rounds)
+		}})
+	}
 	return cases
+}
+
+// c13BuildLiteralModule builds a module as a struct literal holding unnamed
+// globals, an unnamed function and metadata definitions without IDs (all made by
+// the constructors): everything the first print has to number.
+func c13BuildLiteralModule() *ir.Module {
+	m := &ir.Module{}
+	g0 := ir.NewGlobalDef("", constant.NewInt(types.I32, 1))
+	g1 := ir.NewGlobalDef("", g0)
+	m.Globals = append(m.Globals, g0, g1)
+	f := ir.NewFunc("", types.I32, ir.NewParam("", types.I32))
+	b := f.NewBlock("")
+	v := b.NewAdd(f.Params[0], constant.NewInt(types.I32, 2))
+	b.NewRet(v)
+	m.Funcs = append(m.Funcs, f)
+	for i := 0; i < 3; i++ {
+		t := &metadata.Tuple{MetadataID: -1, Fields: []metadata.Field{&metadata.String{Value: fmt.Sprintf("s%d", i)}}}
+		if i > 0 {
+			t.Fields = append(t.Fields, m.MetadataDefs[i-1])
+		}
+		m.MetadataDefs = append(m.MetadataDefs, t)
+	}
+	g0.Metadata = append(g0.Metadata, &metadata.Attachment{Name: "note", Node: m.MetadataDefs[2]})
+	return m
 }
 
 // c13BuildLiteral builds a module from struct literals: the Typ caches of the
@@ -268,7 +301,7 @@ func c13Rounds(r *fw.Rec, sc, id, input string, mk func() *ir.Module, rounds int
 		switch sc {
 		case "printed":
 			preprinted = true
-		case "fresh", "literal":
+		case "fresh", "literal", "literalmod":
 			preprinted = false
 		}
 		cold := !haveExp // first printing activity of this process: as many simultaneous whole-module printers as possible
@@ -327,7 +360,7 @@ func c13Rounds(r *fw.Rec, sc, id, input string, mk func() *ir.Module, rounds int
 					}
 					p, msg, _ := fw.Guard(func() {
 						choice := grng.Intn(10)
-						if sc == "whole" || sc == "literal" {
+						if sc == "whole" || sc == "literal" || sc == "literalmod" {
 							choice = choice % 5
 						}
 						switch {
